@@ -248,9 +248,11 @@ PROPS.update({
                                 "contracts.server_handshake", "contracts.servers", "contracts.client_invoke", "contracts.client_connect"],
                     "contracts": ["Pyro5.client.Proxy.__pyroCreateConnection#body"]},
                    {"modules": ["specs.socket_model", "specs.pystruct", "specs.seqdict", "specs.opaque", "specs.daemon_model", "specs.stream_model", "contracts.streams"],
-                    "contracts": ["Pyro5.client._StreamResultIterator.__next__", "Pyro5.client._StreamResultIterator.close"]}],
+                    "contracts": ["Pyro5.client._StreamResultIterator.__next__", "Pyro5.client._StreamResultIterator.close"]},
+                   {"modules": ["specs.socket_model", "specs.pystruct", "specs.seqdict", "specs.opaque", "specs.daemon_model", "contracts.blob_args"],
+                    "contracts": ["Pyro5.client.Proxy._pyroGetMetadata#body", "Pyro5.client.Proxy.__processMetadata#body"]}],
         "harness": ["replay/c03.py", "replay/dispatch.py", "replay/c10.py"],
-        "explanation": "client side (_pyroInvoke): at most one request per call, carrying the 16-bit incremented sequence number; a call that returns has consumed "
+        "explanation": "Metadata request (fourth group; what __pyroCreateConnection uses by declared interface): _pyroGetMetadata makes at most one connection attempt and at most one remote request - get_metadata(<object id>) addressed to the daemon's own object - and none at all when the metadata is already known; __processMetadata turns the metadata's oneway / methods / attrs entries into the proxy's three name sets and never accepts metadata that exposes nothing.  client side (_pyroInvoke): at most one request per call, carrying the 16-bit incremented sequence number; a call that returns has consumed "
                        "exactly one whole RESULT message whose sequence number equals the request's and whose serializer matches, never returns a reply flagged as "
                        "exception as a value; oneway returns None without reading; a communication error or KeyboardInterrupt after the request went out always "
                        "releases the connection; any other exception leaves the reply stream message-aligned (nothing read or one whole reply consumed).  "
